@@ -32,7 +32,7 @@ COMPONENTS = {
     'stub': ['WSGI/ASGI servers', 'event loop scheduler', 'generated exception classes, handlers, middleware, '
              'hooks, responder, failing media handler / render_body'],
 }
-EXPECTED_PROBES = ('hostile_str', 'raised_in_mw', 'raised_in_hook', 'raised_in_responder', 'raised_in_response_mw',
+EXPECTED_PROBES = ('pre_request', 'hostile_str', 'raised_in_mw', 'raised_in_hook', 'raised_in_responder', 'raised_in_response_mw',
                    'raised_in_render', 'default_http_handler', 'default_status_handler',
                    'default_python_handler', 'custom_handler', 'handler_raised_http', 'handler_raised_status',
                    'xml_body', 'json_body', 'custom_media_body', 'no_body_negotiated', 'multi_inheritance')
@@ -134,6 +134,29 @@ class FailingHandler(falcon.media.BaseHandler):
         return None
 
 
+# built-in errors that add a header of their own (status, own headers)
+BUILTIN = {
+    'B:method_not_allowed': (405, {'Allow': 'GET, PUT'}),
+    'B:unauthorized': (401, {'WWW-Authenticate': 'Basic realm="x"'}),
+    'B:too_many': (429, {'Retry-After': '120'}),
+    'B:range': (416, {'Content-Range': 'bytes */42'}),
+    'B:unavailable': (503, {'Retry-After': '30'}),
+}
+
+
+def builtin_exc(kind):
+    k = kind.split(':', 1)[-1]
+    if k == 'method_not_allowed':
+        return falcon.HTTPMethodNotAllowed(['GET', 'PUT'])
+    if k == 'unauthorized':
+        return falcon.HTTPUnauthorized(challenges=['Basic realm="x"'])
+    if k == 'too_many':
+        return falcon.HTTPTooManyRequests(retry_after=120)
+    if k == 'range':
+        return falcon.HTTPRangeNotSatisfiable(42)
+    return falcon.HTTPServiceUnavailable(retry_after=30)
+
+
 def expected_format(accept, xml_on, custom_on):
     """-> 'json' | 'xml' | 'custom' | None for the small Accept grammar."""
     if accept in (None, '*/*', 'application/json', 'application/vnd.x+json',
@@ -173,7 +196,7 @@ def run(ctx):
     behaviours = [ch.choice(['set', 'set', 'raise_http', 'raise_status'], 'behaviour')
                   for _ in range(n_handlers)]
     # the exception to raise
-    raise_pool = names + ['HTTPError', 'HTTPNotFound', 'HTTPStatus', 'ValueError']
+    raise_pool = names + ['HTTPError', 'HTTPNotFound', 'HTTPStatus', 'ValueError'] + sorted(BUILTIN)
     raise_cls = raise_pool[ch.draw(len(raise_pool), 'raise_cls')]
     err_args = gen_error_args(ch)
     st_args = gen_status_args(ch)
@@ -187,13 +210,22 @@ def run(ctx):
     plan['routed'] = True
     render_kind = ch.choice(['media', 'render_body'], 'render_kind')
     pre_vary = ch.choice([None, None, 'Accept-Encoding', 'Origin, Accept-Language'], 'pre_vary')
+    # an earlier request on the same app that ends in a header-bearing built-in error
+    pre_kind = ch.choice([None, None, 'method_not_allowed', 'unauthorized', 'too_many', 'range', 'unavailable'],
+                         'pre_request')
+    unreadable = ch.draw(3, 'unreadable_body') == 2
     hostile = ch.draw(4, 'hostile_str') == 3
     fam_of = {n: f for n, _b, f in spec}
     fam_of.update({'HTTPError': 'http', 'HTTPNotFound': 'http', 'HTTPStatus': 'status', 'ValueError': 'app'})
+    for b in BUILTIN:
+        fam_of[b] = 'http'
+        ns[b] = falcon.HTTPError
     ns['HTTPNotFound'] = falcon.HTTPNotFound
     ns['ValueError'] = ValueError
 
     def make_exc(cls_name, ea, sa):
+        if cls_name in BUILTIN:
+            return builtin_exc(cls_name)
         fam = fam_of[cls_name]
         cls = ns[cls_name]
         if fam == 'http':
@@ -224,7 +256,8 @@ def run(ctx):
     ctx.plan = {'classes': spec, 'registrations': regs, 'behaviours': behaviours, 'raise': raise_cls,
                 'raise_site': raise_site, 'err': err_args, 'status': st_args, 'accept': accept,
                 'xml': xml_on, 'custom_media': custom_on, 'asgi': asgi, 'stack': plan,
-                'render_kind': render_kind, 'pre_vary': pre_vary, 'hostile_str': hostile}
+                'render_kind': render_kind, 'pre_vary': pre_vary, 'hostile_str': hostile,
+                'pre_request': pre_kind, 'unreadable_body': unreadable}
     ctx.plan_key = json.dumps(ctx.plan, sort_keys=True, default=repr)
 
     calls = []          # (handler idx, class name of ex, text/data/media at entry)
@@ -262,7 +295,8 @@ def run(ctx):
         beh = behaviours[k]
 
         def body(req, resp, ex):
-            calls.append((k, type(ex).__name__, (resp.text, resp.data, resp.media)))
+            if req.get_header('X-Req') != 'P':      # the preliminary request is not under observation
+                calls.append((k, type(ex).__name__, (resp.text, resp.data, resp.media)))
             if beh == 'raise_http':
                 raise falcon.HTTPError(err2['status'], title=err2['title'], description=err2['description'],
                                        headers=err2['headers'], href=err2['href'],
@@ -284,7 +318,21 @@ def run(ctx):
     class RenderFail(Exception):
         pass
 
+    def pre_exc():
+        return builtin_exc(pre_kind)
+
     def extra(app, st):
+        if pre_kind:
+            if asgi:
+                class Pre(object):
+                    async def on_get(self, req, resp):
+                        raise pre_exc()
+            else:
+                class Pre(object):
+                    def on_get(self, req, resp):
+                        raise pre_exc()
+            app.add_route('/pre', Pre())
+            st.add_lane('P', [], [], lambda site: None)
         app.resp_options.xml_error_serialization = xml_on
         if custom_on:
             app.resp_options.media_handlers['application/x-custom'] = CustomHandler()
@@ -342,7 +390,9 @@ def run(ctx):
 
     hdrs = [('Accept', accept)] if accept is not None else []
     if asgi:
-        conn, st, finished, app_exc, sig = run_asgi(ctx, factory, '/r/x', headers=hdrs)
+        conn, st, finished, app_exc, sig = run_asgi(ctx, factory, '/r/x', headers=hdrs,
+                                                    pre='/pre' if pre_kind else None,
+                                                    unreadable_body=unreadable)
         mon = conn.monitor
         status, headers, body = mon.status, [(n.decode('latin-1'), v.decode('latin-1'))
                                              for n, v in (mon.headers or [])], mon.body
@@ -352,7 +402,8 @@ def run(ctx):
             return
         mviol = mon.violations
     else:
-        ex, st = run_wsgi(ctx, factory, '/r/x', headers=hdrs)
+        ex, st = run_wsgi(ctx, factory, '/r/x', headers=hdrs, pre='/pre' if pre_kind else None,
+                          unreadable_body=unreadable)
         status, headers, body = ex.status_code, list(ex.headers or []), ex.body
         app_exc = ex.app_exc
         ctx.sched_key = 'W'
@@ -434,6 +485,9 @@ def run(ctx):
             ea = dict(err_args)
             if raise_cls == 'HTTPNotFound':
                 ea['status'] = 404
+            if raise_cls in BUILTIN:
+                ea = {'status': BUILTIN[raise_cls][0], 'title': None, 'description': None, 'code': None,
+                      'href': None, 'href_text': None, 'headers': dict(BUILTIN[raise_cls][1])}
             want = ('http', ea, None)
         elif chosen[0] == 'default_status':
             want = ('status', st_args, None)
@@ -443,6 +497,19 @@ def run(ctx):
 
     # ---- rendering ----------------------------------------------------------------
     hl = [(n.lower(), v) for n, v in headers]
+    if pre_kind:
+        ctx.probe('pre_request')
+        own = set(['content-type', 'content-length', 'vary'])
+        for src in (want[1] if want[0] in ('http', 'status') else None,):
+            if isinstance(src, dict):
+                hh = src.get('headers')
+                for n, _v in (hh.items() if isinstance(hh, dict) else (hh or [])):
+                    own.add(n.lower())
+        strangers = sorted(set(n for n, _v in hl) - own)
+        if strangers:
+            ctx.violate('errors.rendering.headers', 'response carries header(s) %r that belong to neither this '
+                        'error nor this request (an earlier request on the app ended in %s)' % (
+                            strangers, pre_kind), kind='unexpected', **sig)
     body_oracle = 'errors.render_window.body' if in_render else 'errors.rendering.body'
     if want[0] == 'set':
         if status != 299:
